@@ -61,31 +61,9 @@ def default_value(name, salt=""):
 
 
 def hard_check(solver, limit_s):
-    """solver.check() under a hard wall-clock limit: z3's own ``timeout`` is not always honoured by nlsat, so a timer
-    thread interrupts the context after ``limit_s`` seconds (the result is then ``unknown`` = inconclusive)."""
-    import threading
-
-    fired = []
-
-    def fire():
-        fired.append(1)
-        try:
-            solver.ctx.interrupt()
-        except Exception:  # noqa: BLE001
-            pass
-
-    t = threading.Timer(limit_s, fire)
-    t.daemon = True
-    t.start()
-    try:
-        r = solver.check()
-    except z3.Z3Exception:
-        if not fired:
-            raise
-        return z3.unknown
-    finally:
-        t.cancel()
-    return r
+    """solver.check() relying on z3's own timeout (linear / boolean queries: reliable).  A watchdog thread calling
+    Z3_interrupt was tried here and removed: interrupting from a second thread crashed z3 now and then (segfault of the worker)."""
+    return solver.check()
 
 
 FORK_PROVE = not os.environ.get("VERIF_NO_FORK")
